@@ -91,6 +91,7 @@ type Engine struct {
 	errTok  map[error]string
 	berrs   []held
 	hot     map[string]bool
+	emptyTok string // resource token that stands for the empty resource name in the running trace
 	// stress bookkeeping
 	stress   bool
 	sPassed  sync.Map // *SentinelEntry -> *int32 (told passed)
@@ -361,6 +362,9 @@ func (g *Engine) name(tok string) string {
 		return n
 	}
 	n := fmt.Sprintf("ec_%d_%d_%s", g.origin, g.trn, tok)
+	if tok == g.emptyTok {
+		n = "" // the empty resource name is a resource like any other (traces are a whole gap apart, so its node has forgotten the previous one)
+	}
 	g.resName[tok] = n
 	g.tokOf[n] = tok
 	return n
@@ -528,6 +532,7 @@ func (g *Engine) opNew(s hx.M) {
 	g.stress = false
 	g.nodes = nil
 	g.chain = nil
+	g.emptyTok = hx.Str(s, "empty")
 	_ = isolation.ClearRules()
 	_ = hotspot.ClearRules()
 	if l, ok := s["nodes"].([]interface{}); ok {
@@ -632,6 +637,9 @@ func (g *Engine) entryOpts(eid int64, s hx.M) []api.EntryOption {
 	}
 	if s["inb"] == true {
 		opts = append(opts, api.WithTrafficType(base.Inbound))
+	}
+	if _, ok := s["rt"]; ok {
+		opts = append(opts, api.WithResourceType(base.ResourceType(hx.Int(s, "rt"))))
 	}
 	if a := mkArgs(strList(s["args"])); len(a) > 0 {
 		opts = append(opts, api.WithArgs(a...))
